@@ -67,11 +67,21 @@ def key(o):
 
 def load_path(schema, path):
     import ZConfig
+    import zcverif_dt.fam as _fam
+    # (the family's section datatypes load this very file once more, from
+    # inside the load: see zcverif_dt/fam.py)
+    _fam.CURRENT[0] = ("path", schema, path)
     try:
         config, handler = ZConfig.loadConfig(schema, path)
     except Exception as e:  # noqa
         fam, tn, lineno, url = outcome.classify_exception(e)
+        _fam.same_load_mismatch(False)
         return ("reject", fam, tn, lineno, url, str(e)[:200])
+    finally:
+        _fam.CURRENT[0] = None
+    msg = _fam.same_load_mismatch(True)
+    if msg:
+        return ("reject", "internal", "NestedLoadDiffers", None, None, msg)
     return ("ok", outcome.canon_value(config))
 
 
